@@ -106,9 +106,39 @@ POSITIONS = [("SELECT {E} FROM t", 14), ("SELECT a FROM t WHERE {E}", 14), ("SEL
              ("SELECT a FROM t GROUP BY {E}", 8)]
 
 
+def chain_tree(atoms, ops):
+    """the tree of the flat chain a0 o1 a1 o2 a2 …: repeatedly merge the leftmost operator of the tightest level (left associative)"""
+    nodes = [("atom", a) for a in atoms]
+    ops = list(ops)
+    while ops:
+        lv = min(o[1] for o in ops)
+        i = next(k for k, o in enumerate(ops) if o[1] == lv)
+        nodes[i:i + 2] = [("bin", ops[i], nodes[i], nodes[i + 1])]
+        del ops[i]
+    return nodes[0]
+
+
+def chains(r, quick):
+    """every flat chain of three binary operators, and a sample of chains of four and five, without any parentheses"""
+    import itertools
+    names = ["a", "b", "c", "x1", "2", "t.c"]
+    out = []
+    for ops in itertools.product(COMPUTE[:12], repeat=3):
+        out.append((names[:4], ops))
+    for _ in range(1500 if quick else 30000):
+        k = 4 + r.below(2)
+        out.append(([r.choice(names) for _ in range(k + 1)], tuple(r.choice(COMPUTE) for _ in range(k))))
+    res = []
+    for atoms, ops in out:
+        txt = atoms[0] + "".join(" %s %s" % (o[0], a) for o, a in zip(ops, atoms[1:]))
+        res.append((txt, expected(chain_tree(atoms, ops))))
+    return res
+
+
 def run(ctx):
     n = 3000 if ctx.quick else 80000
-    ctx.cov["rule"] = ("random expression TREES over every unary / binary / keyword / comparison / logical operator and both spellings (DIV and /, MOD and %%, && and AND, || and OR, <> and !=), "
+    ctx.cov["rule"] = ("every flat chain of three binary arithmetic / bitwise operators (12³) and a sample of chains of four and five, against a reference that merges the tightest "
+                       "leftmost operator first; random expression TREES over every unary / binary / keyword / comparison / logical operator and both spellings (DIV and /, MOD and %%, && and AND, || and OR, <> and !=), "
                        "depth ≤ 4, rendered with parentheses exactly where the documented precedence and left associativity need them plus random redundant ones, placed at %d expression "
                        "positions, for each dialect (Hive: `!` as NOT); oracle: the tree returned by the parser is the generated tree (so redundant parentheses change nothing and "
                        "grouping parentheses are honoured); correspondence on every parse. distinct_nontrivial = distinct accepted trees" % len(POSITIONS))
@@ -123,6 +153,10 @@ def run(ctx):
         if level(t) > maxl:
             txt = "(" + txt + ")"
         cases.append((d, pos.replace("{E}", txt), expected(t), txt))
+    for txt, want in chains(r, ctx.quick):
+        d = r.choice(pfam.DIALECTS)
+        pos, _ = r.choice(POSITIONS)
+        cases.append((d, pos.replace("{E}", txt), want, txt))
     res, _ = ctx.corr([pfam.req_parse(d, s) for d, s, _, _ in cases], stream="positions")
     for (d, s, want, txt), (_, a, _) in zip(cases, res):
         if a.startswith("OK") and want in a:
